@@ -7,6 +7,20 @@ CLAIMED = {
              note='Trusted: Coq kernel + vm_compute + primitive floats; stdlib real axioms; the hand model Base/Vec.v and its differential tie (harness/src/mathops.rs, props/mathprop.py); rounding error between R and binary64 is not proved, only measured.',
              ref='DESIGN.md section 7 C11'),
 }
+CLAIMED.update({
+ 'C09': dict(technique='Coq proof over R of 4x4 matrix algebra on the Mt4 model (cofactors regenerated from mt4.rs) + bit-exact differential run',
+             text='coq/Props/C09.v proves, for all real matrices and points: identity neutral, associativity of products and of action on homogeneous points, transpose laws, the row-by-column action over all four components, translate/scale behaviour for w=1 and w=0, apply_matrix as the full affine map, column-major indexing incl. the panic range, and inverse = None iff det = 0 else a two-sided inverse (by field). The 16 cofactor expressions are regenerated from the Rust on every run; everything else is a hand model tied by evaluating its binary64 reading in Coq against the implementation.',
+             note='Trusted: Coq kernel/vm_compute/primitive floats; stdlib real axioms; translator gen/gen_mt4.py; hand model Base/Mat.v + differential tie; "to rounding" for inverse is measured (bit-exact agreement of model and code), not proved.',
+             ref='DESIGN.md section 7 C09'),
+ 'C10': dict(technique='Coq proof over R that every rotation route equals the textbook right-hand rotation (Rodrigues), isometry by nsatz, look_at frame lemma + bit-exact differential run',
+             text='coq/Props/C10.v proves for all points, angles and unit axes: Pt2/Pt3 rotated_* are the right-hand rotations (= Rodrigues about the axis), rot_*_matrix on points (w=1), directions (w=0) and through Mul<Pt3>, rot_vec on coordinate axes and in general, in-place forms; dot products preserved; composition a then b = a+b, -a undoes a; look_at_matrix_lh is a proper rotation taking +Z to the unit direction and +X perpendicular to up, incl. up=+Z with vertical directions. Tie: differential run of the float reading (sin/cos values from the trig-log hook, their arguments checked).',
+             note='Trusted: Coq kernel; stdlib real axioms; hand models Base/Vec.v, Base/Mat.v + differential tie; libm sin/cos not modelled (values taken from the implementation); rounding not proved.',
+             ref='DESIGN.md section 7 C10'),
+ 'C12': dict(technique='Coq proof over R of the degree helpers and their inverse laws (asin_sin, acos_cos, atan_tan) + differential run checking the argument passed to libm and the result scaling',
+             text='coq/Props/C12.v proves dsin/dcos/dtan a = sin/cos/tan(a*PI/180), dasin/dacos/datan x = asin/acos/atan(x)*180/PI, the three round-trip laws on their stated ranges (and the converse on ratios), and approx_eq <-> |a-b| < eps. Tie: the model in its binary64 reading reproduces bit-exactly the argument handed to libm and the scaling of the result.',
+             note='Trusted: Coq kernel; stdlib real axioms; hand model Base/Num.v + differential tie; libm itself is not modelled.',
+             ref='DESIGN.md section 7 C12'),
+})
 NOT_YET = {}
 def main():
     props = [json.loads(l)['id'] for l in open('properties.jsonl')]
